@@ -643,6 +643,9 @@ def mutations(doc, rng, exhaustive):
             d = copy.deepcopy(doc); d[0][i][0] = bad; add(d, "retype-node-key")
         for bad in (None, "x", 1.5, [1], 2 ** 63, -2 ** 63 - 1):
             d = copy.deepcopy(doc); d[0][i][1] = bad; add(d, "retype-node-value")
+        for good in (2 ** 63 - 1, -2 ** 63):
+            d = copy.deepcopy(doc); d[0][i][1] = good; add(d, "extreme-node-value")
+        d = copy.deepcopy(doc); d[0][i][0] = 2 ** 64 - 1; add(d, "extreme-node-key")
         d = copy.deepcopy(doc); d[0][i] = d[0][i][:1]; add(d, "truncate-node-tuple")
         d = copy.deepcopy(doc); d[0][i] = d[0][i] + [0]; add(d, "extend-node-tuple")
         d = copy.deepcopy(doc); d[0][i] = 5; add(d, "node-not-a-tuple")
@@ -657,6 +660,7 @@ def mutations(doc, rng, exhaustive):
                 d = copy.deepcopy(doc); d[1][i][pos] = bad; add(d, "retype-edge-endpoint")
         for bad in (None, "x", -3, 2.5, 2 ** 64):
             d = copy.deepcopy(doc); d[1][i][2] = bad; add(d, "retype-edge-value")
+        d = copy.deepcopy(doc); d[1][i][2] = 2 ** 64 - 1; add(d, "extreme-edge-value")
         d = copy.deepcopy(doc); d[1][i] = d[1][i][:2]; add(d, "truncate-edge-tuple")
         d = copy.deepcopy(doc); d[1][i] = d[1][i] + [1]; add(d, "extend-edge-tuple")
     for i in range(len(nodes) + 1):
